@@ -20,6 +20,7 @@ import (
 	"go/constant"
 	"go/token"
 	"go/types"
+	"os"
 	"sort"
 	"strings"
 	"sync"
@@ -316,21 +317,22 @@ func localCell(a *ssa.Alloc) []int {
 }
 
 type boundsFn struct {
-	cells  map[*ssa.Alloc][]int
-	rep    map[ssa.Value]ssa.Value // pure load -> first load of the same immutable location
-	pure   map[ssa.Value]bool      // representatives of immutable locations (never forgotten)
-	alias  map[ssa.Value]ssa.Value // BinOp -> dominating identical BinOp (go/ssa does no CSE)
-	r      *core.Run
-	fn     *ssa.Function
-	vars   map[interface{}]int
-	names  []string
-	in     map[*ssa.BasicBlock]*dbm
-	visits map[*ssa.BasicBlock]int
-	heads  map[*ssa.BasicBlock]bool
-	summ   func(*ssa.Function) *boundsSummary
-	summC  func(callee *ssa.Function, seed [][3]int64, key string) *boundsSummary // context-sensitive: analysed with the caller's facts about the arguments
-	seed   [][3]int64                                                             // entry constraints (i, j, c): ent_i - ent_j <= c over [zero, params...]
-	glen   func(*ssa.Global) (int64, bool)
+	unconverged bool // the fixpoint iteration hit its cap: the block states are not invariants, nothing may be discharged from them
+	cells       map[*ssa.Alloc][]int
+	rep         map[ssa.Value]ssa.Value // pure load -> first load of the same immutable location
+	pure        map[ssa.Value]bool      // representatives of immutable locations (never forgotten)
+	alias       map[ssa.Value]ssa.Value // BinOp -> dominating identical BinOp (go/ssa does no CSE)
+	r           *core.Run
+	fn          *ssa.Function
+	vars        map[interface{}]int
+	names       []string
+	in          map[*ssa.BasicBlock]*dbm
+	visits      map[*ssa.BasicBlock]int
+	heads       map[*ssa.BasicBlock]bool
+	summ        func(*ssa.Function) *boundsSummary
+	summC       func(callee *ssa.Function, seed [][3]int64, key string) *boundsSummary // context-sensitive: analysed with the caller's facts about the arguments
+	seed        [][3]int64                                                             // entry constraints (i, j, c): ent_i - ent_j <= c over [zero, params...]
+	glen        func(*ssa.Global) (int64, bool)
 }
 
 func isExactInt(t types.Type) bool {
@@ -1866,8 +1868,31 @@ func (b *boundsFn) refine(d *dbm, cond ssa.Value, truth bool) {
 		b.refineCmp(d, op, c.X, c.Y)
 	case *ssa.Phi:
 		// a && b / a || b used as a value (`return len(l) == 1 && isStar(l[0])`): the atoms that must hold
+		// the operands of the deciding comparison were computed in the block the value came from (binop.rhs: t = i+2;
+		// t < len(b)); at the join in front of the φ their definitions were lost (the other edge never computed them):
+		// coming through that edge they hold — re-establish them before the comparison is applied
+		var pred *ssa.BasicBlock
+		nlive := 0
+		for i, e := range c.Edges {
+			if k, ok := e.(*ssa.Const); ok && k.Value != nil {
+				if k.Value.String() == "true" && !truth || k.Value.String() == "false" && truth {
+					continue
+				}
+			}
+			nlive++
+			if i < len(c.Block().Preds) {
+				pred = c.Block().Preds[i]
+			}
+		}
 		for _, a := range condAtoms(c, truth, 0) {
 			if a.call == nil && a.x != nil && a.y != nil && isAnyInt(a.x.Type()) {
+				if nlive == 1 && pred != nil {
+					for _, op := range []ssa.Value{a.x, a.y} {
+						if bo, ok := op.(*ssa.BinOp); ok && bo.Block() == pred && (bo.Op == token.ADD || bo.Op == token.SUB) {
+							b.transfer(d, bo)
+						}
+					}
+				}
 				b.refineCmp(d, a.op, a.x, a.y)
 			}
 		}
@@ -2233,7 +2258,7 @@ func (b *boundsFn) analyse() {
 	out := map[*ssa.BasicBlock]*dbm{}
 	b.in[b.fn.Blocks[0]] = b.entryState()
 	dirty := map[*ssa.BasicBlock]bool{b.fn.Blocks[0]: true}
-	for iter := 0; iter < 400 && len(dirty) > 0; iter++ {
+	for iter := 0; iter < 400+200*len(b.fn.Blocks) && len(dirty) > 0; iter++ {
 		// pick the dirty block with the smallest rpo
 		var blk *ssa.BasicBlock
 		for x := range dirty {
@@ -2272,6 +2297,32 @@ func (b *boundsFn) analyse() {
 			dirty[s] = true
 		}
 	}
+	if len(dirty) > 0 {
+		b.unconverged = true
+	}
+	if dbg := os.Getenv("PCHECK_BDEBUG"); dbg != "" && dbg == b.fn.Name() {
+		for _, blk := range b.fn.Blocks {
+			d := b.in[blk]
+			if d == nil {
+				continue
+			}
+			fmt.Fprintf(os.Stderr, "block %d (%s) visits=%d head=%v\n", blk.Index, blk.Comment, b.visits[blk], b.heads[blk])
+			for i := 0; i < d.n; i++ {
+				for j := 0; j < d.n; j++ {
+					if i != j && d.get(i, j) < bInf/2 {
+						ni, nj := "0", "0"
+						if i > 0 {
+							ni = b.names[i]
+						}
+						if j > 0 {
+							nj = b.names[j]
+						}
+						fmt.Fprintf(os.Stderr, "    %s - %s <= %d\n", ni, nj, d.get(i, j))
+					}
+				}
+			}
+		}
+	}
 }
 
 // ---------------------------------------------------------------------------
@@ -2285,6 +2336,19 @@ type boundsOb struct {
 }
 
 func (b *boundsFn) obligations() []boundsOb {
+	obs := b.obligations0()
+	if b.unconverged {
+		for i := range obs {
+			if obs[i].ok {
+				obs[i].ok = false
+				obs[i].detail = "the analysis of this function did not reach a fixpoint within its iteration budget: its block states are not invariants"
+			}
+		}
+	}
+	return obs
+}
+
+func (b *boundsFn) obligations0() []boundsOb {
 	var obs []boundsOb
 	count := map[string]int{}
 	for _, blk := range b.fn.Blocks {
